@@ -22,7 +22,7 @@ package fdo
 //@   props C04 C01 C06 C10(sweep)
 //@   sweep bounds,panic,make,nilmem
 //@   requires @nonempty len(entries) > 0
-//@   requires @hash prevHash != nil
+//@   requires @hash prevHash != nil && !implements(prevHash, "fdo.fallibleHash")
 //@   modifies nothing
 //@   ensures @payloads err == nil ==> forall k in 0..len(entries): entries[k].Payload != nil
 //@   ensures @sig err == nil ==> SigOk(u(entries[0].Sign1), u(prevOwnerKey))
@@ -163,6 +163,7 @@ package fdo
 //@   pure
 //@   ensures @known err == nil ==> alg == -16 || alg == -43 || alg == 5 || alg == 6
 //@   ensures @nonnil err == nil ==> result0 != nil
+//@   ensures @plain err == nil ==> !implements(result0, "fdo.fallibleHash")
 //@   ghostset absorbed(result0) := hinit(u(hashfn(alg)))
 //@   ghostset hashkind(result0) := u(hashfn(alg))
 
@@ -275,9 +276,15 @@ package fdo
 //@   callassert hmacHash#1: @header u(unwrap(arg1)) == u(replacementOVH) && (u(arg0) == u(c.HmacSha256) || u(arg0) == u(c.HmacSha384))
 //@   callassert Send#1: @msg66 arg2 == 66 && u(arg4) == u(sess)
 
+// the HMAC the device computes over a (replacement) voucher header: the MAC, under
+// the given keyed hash, of the encoding of exactly the given value; a failure of a
+// fallible (hardware) hash while finalising is reported, never returned as a MAC
 //@ func fdo.hmacHash
-//@   nopaths
+//@   props C03 C01 C10(sweep)
+//@   sweep bounds,nilmem
 //@   modifies nothing
+//@   ensures @mac err == nil ==> bytes(result0.Value) == digest(happ(hinit(hashkind(h)), Enc(encarg(v))))
+//@   ensures @alg err == nil ==> result0.Algorithm == 5 || result0.Algorithm == 6
 
 //@ func fdo.hashAlgFor
 //@   props C04 C09 C10(sweep)
@@ -364,7 +371,7 @@ package fdo
 // and size, signs; the new entry carries exactly the hashes validateNextEntry
 // recomputes (C04) --------------------------------------------------------------------------------------
 //@ func fdo.ExtendVoucher
-//@   props C04 C10(sweep)
+//@   props C04 C03 C10(sweep)
 //@   sweep bounds,panic,make
 //@   callsites newSignedEntry 1
 //@   callassert newSignedEntry#1: @owner KeyEq(u(ownerPubKey), u(expectedOwnerPubKey)) && u(arg0) == u(owner)
@@ -390,6 +397,8 @@ package fdo
 //@   callsites NewProducer 1
 //@   callsites ProduceInfo 1
 //@   callsites NextModule 1
+//@   callsites PersistModule 1
+//@   callassert PersistModule#1: @produced u(arg2) == u(moduleName) && u(arg3) == u(module)
 //@   callassert NewProducer#1: @mtu u(arg1) == MtuOf(u(ctx))
 //@   callassert NewProducer#1: @name u(arg0) == u(moduleName)
 //@   callassert ProduceInfo#1: @args u(arg0) == u(module) && u(arg2) == u(producer)
@@ -450,6 +459,8 @@ package fdo
 //@   callsites HandleInfo 1
 //@   callsites produceOwnerServiceInfo 1
 //@   callsites NewChunkInPipe 1
+//@   callsites PersistModule 1
+//@   callassert PersistModule#1: @blocked deviceInfo.IsMoreServiceInfo && u(arg2) == u(moduleName) && u(arg3) == u(module)
 //@   callassert Module#1: @devmoddone complete && err == nil
 //@   callassert NewChunkInPipe#1: @capacity arg0 >= len(deviceInfo.ServiceInfo)
 //@   callassert HandleInfo#1: @args u(arg0) == u(module) && u(arg2) == u(messageName) && u(arg3) == u(messageBody)
